@@ -101,13 +101,22 @@ def plan(seed, tier="quick", index=0):
                 ]
             )
         return {"property": PROPERTY, "seed": seed, "stratum": stratum, "threads": threads, "strategy": strategy, "ops": []}
-    if rng.random() < 0.01:
+    import os
+
+    p_very_long = float(os.environ.get("C03_VERY_LONG_P", "0.0006" if tier == "thorough" else "0"))
+    if rng.random() < p_very_long:
+        # over a thousand public-key derivations in one process, then the first keys again
+        # (caches with a capacity, ~70 s per run: thorough tier only)
+        stratum, nops = "very-long", rng.choice([1030, 1100])
+    elif rng.random() < 0.01:
         # hundreds of keys in one process (no public-key derivation for most of them)
         stratum, nops = "long", rng.choice([300, 520, 1030])
     ops = []
     while len(ops) < nops:
-        kind = stratum if stratum not in ("mixed", "long") else rng.choice(["boundary", "pairs", "random"])
-        via = "cli" if rng.random() < (0.02 if stratum == "long" else 0.15) else "api"
+        kind = stratum if stratum not in ("mixed", "long", "very-long") else rng.choice(["boundary", "pairs", "random"])
+        if stratum == "very-long":
+            kind = "random"
+        via = "cli" if rng.random() < (0.02 if stratum in ("long", "very-long") else 0.15) else "api"
         if kind == "boundary":
             pre = rng.choice([[], [], ["ZERO"], ["ZERO", "ZERO"], ["ZERO"] * rng.randrange(3, 8)])
             last = rng.choice(["ZERO", "ONE", "ONE", "BOUND-1", "BOUND-1", "BOUND-2", "MID", {"frac": rng.random()}, {"v": hex(rng.getrandbits(rng.choice([16, 100, 127, 240])))}])
@@ -121,7 +130,7 @@ def plan(seed, tier="quick", index=0):
             ops.append({"via": via, "tape": [{"v": hex(a)}]})
             ops.append({"via": "api", "tape": [{"v": hex(b)}]})
         else:
-            ops.append({"via": via, "tape": rng.choice([[], ["REPEAT-LAST"] if ops else []])})
+            ops.append({"via": via, "tape": [] if stratum == "very-long" else rng.choice([[], ["REPEAT-LAST"] if ops else []])})
     return {"property": PROPERTY, "seed": seed, "stratum": stratum, "ops": ops}
 
 
@@ -331,6 +340,15 @@ def execute(scenario, tape=None, keep_events=False):
             if sc["stratum"] == "long" and i % 50:
                 made.append((i, drawn[-1] if drawn else None, k))
                 continue  # long histories: derive and check the public key only for every 50th key
+            if sc["stratum"] == "very-long":
+                made.append((i, drawn[-1] if drawn else None, k))
+                try:
+                    got = keys.pub(bytes(key), compressed=True)
+                    if got != EC.pub_bytes(k, True):
+                        viols.append(Violation("pubkey-mismatch", where + " compressed=True", f"k={k:#x} got {bytes(got).hex()}", feats))
+                except Exception as e:
+                    viols.append(Violation("pubkey-raised", where, f"{type(e).__name__}: {e}"[:200], feats))
+                continue
             Pt = EC.mul(k)
             for comp in (True, False):
                 want = EC.pub_bytes(k, comp)
@@ -363,6 +381,9 @@ def execute(scenario, tape=None, keep_events=False):
                     ("33-bytes-trailing-01", bytes(key) + b"\x01"),
                     ("33-bytes-trailing-00", bytes(key) + b"\x00"),
                     ("64-bytes-key-twice", bytes(key) * 2),
+                    ("64-bytes-ascii-hex", bytes(key).hex().encode()),
+                    ("64-bytes-ascii-HEX", bytes(key).hex().upper().encode()),
+                    ("66-bytes-0x-hex", b"0x" + bytes(key).hex().encode()),
                     ("empty", b""),
                 ]
                 if k + N < 2**256:
@@ -377,6 +398,18 @@ def execute(scenario, tape=None, keep_events=False):
                             probes.hit("malformed-key-refused")
                             continue
                         viols.append(Violation("malformed-key-accepted", where + f" variant={name} by={fn_name}", f"after generating/using key {k:#x}: {v.hex()} -> {out if isinstance(out, int) else bytes(out).hex()}", feats))
+    if sc["stratum"] == "very-long":
+        # the first keys again, after more than a thousand others
+        for i, acc, k in made[:3]:
+            for comp in (True, False):
+                try:
+                    got = keys.pub(k.to_bytes(32, "big"), compressed=comp)
+                    if got != EC.pub_bytes(k, comp):
+                        viols.append(Violation("pubkey-mismatch", f"op={i} again after {len(made)} keys compressed={comp}", f"k={k:#x} got {bytes(got).hex()} want {EC.pub_bytes(k, comp).hex()}", {"via": "api", "last": ""}))
+                    else:
+                        probes.hit("rederived-after-1000-keys")
+                except Exception as e:
+                    viols.append(Violation("pubkey-raised", f"op={i} again", f"{type(e).__name__}: {e}"[:200], {"via": "api", "last": ""}))
     # incidental reach (NOT part of the claim, see DESIGN 9.2): differential checks of the
     # group law on values that flowed through this history, against the reference
     if made and sc.get("algebra", True):
